@@ -13,7 +13,7 @@ RULE = ("segments whose endpoints are drawn from all 9x9 region pairs around the
         "on small integer, half-integer, random rational, large (1e15) and tiny (2^-30) grids; degenerate (zero-length, vertical, horizontal) segments, "
         "zero-area rectangles; arguments as nested lists or nested tuples, and (lists) the same segment object clipped twice; each case is run on Fractions (compared exactly with the model and the exact spec) and on floats (judged by the sandwich checker "
         "with eps = 1e-9 x coordinate scale); non-trivial = at least one endpoint outside the rectangle")
-TRUSTED = ["python Fraction arithmetic = exact rational arithmetic", "the float judgement (sandwich checker in Corr/C08.v) is an executable specification, not proved sound"]
+TRUSTED = ["python Fraction arithmetic = exact rational arithmetic", "the float judgement (sandwich checker in Corr/C08.v): its exact reference interval is proved correct (C08_reference_interval); the eps-arithmetic around it is an executable specification"]
 ASSUMPTIONS = ["finite coordinates; xmin <= xmax and ymin <= ymax"]
 
 def _coord(rng, lo, hi, unit, region):
@@ -27,7 +27,7 @@ def _coord(rng, lo, hi, unit, region):
     return lo + (hi - lo) * F(rng.randint(0, 8), 8)
 
 def generate(rng, tier):
-    n = 700 if tier == "quick" else 12000
+    n = 700 if tier == "quick" else 30000
     cases = [{"seg": [F(-2), F(-6), F(12), F(15)], "rect": [F(0), F(10), F(0), F(10)], "exact": True, "family": "four-clips"}]
     for _ in range(n):
         mode = rng.choice(["int", "half", "rat", "large", "tiny"])
